@@ -10,7 +10,7 @@ from ..evidence import Run, canon_hash
 PID = "C12"
 SHARDS = {"quick": 8, "thorough": 16}
 SHARD_TIMEOUT = {"quick": 600, "thorough": 1700}
-N_RANDOM = {"quick": 150, "thorough": 12000}
+N_RANDOM = {"quick": 150, "thorough": 8000}
 MAX_CAUSES = 4
 
 
